@@ -2,6 +2,7 @@ package props
 
 import (
 	"fmt"
+	"math"
 	"go/constant"
 	"go/token"
 	"go/types"
@@ -727,6 +728,7 @@ func c12(p *core.Program, r *core.Report) {
 			}
 		}
 	}
+	normalisationOriginRule(p, r, "normalisation-origin-in-overlap")
 	r.Assume("orientation signs are exact (C10); IsPointWithinLineBounds/DoLinesOverlap/Equal compute closed-interval membership, envelope overlap and XY equality (read by hand: four comparisons each); the accuracy of the computed crossing point and the non-robust strategy are not decided")
 }
 
@@ -1028,5 +1030,96 @@ func pointOnLineRule(p *core.Program, r *core.Report, rule string) {
 				r.Check(okc && k == want, rule, key, p.Pos(fn.Pos()), true, c.className(want), fmt.Sprintf("point inside the segment's envelope: %v, orientation %+d: exact geometry dictates %s, the class stored is %s (a decision that depends on anything but the exact predicates of the three inputs cannot be bound)", in, o, c.className(want), desc))
 			}
 		}
+	}
+}
+
+// normalisationOriginRule (C12): before the homogeneous-coordinate computation the four endpoints are translated so
+// that the origin lies where the crossing is - inside the intersection of the two segments' envelopes. The error of
+// that computation grows with the square of the operands' distance from the origin, so an origin elsewhere (the centre
+// of the union of the envelopes, an endpoint of the longer segment) loses exactly the digits the step exists to keep.
+func normalisationOriginRule(p *core.Program, r *core.Report, rule string) {
+	r.Rule(rule, "predicate abstraction over the order of the four x (and, separately, y) ordinates: normalizeToEnvCentre evaluated with the ordinates bound to representative values for every weak order in which the two segments' intervals overlap stores into normPt an abscissa (ordinate) that lies inside the overlap [max of the minima, min of the maxima]", 2)
+	fn := mustFn(p, r, rule, c12Lines, "normalizeToEnvCentre")
+	if fn == nil || len(fn.Params) != 5 {
+		return
+	}
+	for axis := int64(0); axis < 2; axis++ {
+		bad := ""
+		nOrders := 0
+		for v := 0; v < 256 && bad == ""; v++ {
+			ps := [4]int{v % 4, v / 4 % 4, v / 16 % 4, v / 64}
+			used := map[int]bool{}
+			for _, x := range ps {
+				used[x] = true
+			}
+			canon := true
+			for x := 0; x < len(used); x++ {
+				if !used[x] {
+					canon = false
+				}
+			}
+			if !canon {
+				continue
+			}
+			val := func(i int) float64 { return 10 * float64(ps[i]+1) }
+			lo := math.Max(math.Min(val(0), val(1)), math.Min(val(2), val(3)))
+			hi := math.Min(math.Max(val(0), val(1)), math.Max(val(2), val(3)))
+			if lo > hi {
+				continue // disjoint envelopes: the intersector rejects before normalising
+			}
+			nOrders++
+			ev := &eng.ConstEval{Inline: func(f *ssa.Function) bool { return f.Pkg == fn.Pkg }}
+			ev.Override = func(f *ssa.Function, x ssa.Value, args []eng.CVal) (eng.CVal, bool) {
+				if f != fn {
+					return eng.CVal{}, false
+				}
+				ld, ok := x.(*ssa.UnOp)
+				if !ok || ld.Op != token.MUL {
+					return eng.CVal{}, false
+				}
+				ia, ok := ld.X.(*ssa.IndexAddr)
+				if !ok {
+					return eng.CVal{}, false
+				}
+				k, isK := eng.ConstInt(ia.Index)
+				if !isK {
+					return eng.CVal{}, false
+				}
+				for i := 0; i < 4; i++ {
+					if ia.X == ssa.Value(fn.Params[i]) {
+						if k == axis {
+							return eng.ConstV(constant.MakeFloat64(val(i))), true
+						}
+						return eng.Top, true
+					}
+				}
+				return eng.CVal{}, false
+			}
+			top := ev.Run(fn, nil)
+			var got []eng.CVal
+			eng.WalkReached(top, func(act *eng.CEResult, in ssa.Instruction) {
+				st, ok := in.(*ssa.Store)
+				if !ok || act.Fn != fn {
+					return
+				}
+				ia, ok := st.Addr.(*ssa.IndexAddr)
+				if !ok || ia.X != ssa.Value(fn.Params[4]) {
+					return
+				}
+				if k, isK := eng.ConstInt(ia.Index); isK && k == axis {
+					got = append(got, act.Of(st.Val))
+				}
+			})
+			if len(got) != 1 || got[0].K != eng.CConst {
+				bad = fmt.Sprintf("for the ordinate order %v the origin stored into normPt[%d] is not a value selected from the ordinates by comparisons (%v)", ps, axis, got)
+				break
+			}
+			f, _ := constant.Float64Val(constant.ToFloat(got[0].C))
+			if f < lo || f > hi {
+				bad = fmt.Sprintf("with the ordinates ordered %v (p1,p2,q1,q2) the normalisation origin %g lies outside the overlap [%g,%g] of the two segments' intervals: the crossing point is not near the origin and the homogeneous computation loses precision", ps, f, lo, hi)
+			}
+		}
+		name := [2]string{"x", "y"}[axis]
+		r.Check(bad == "" && nOrders > 0, rule, short(fn)+"/"+name, p.Pos(fn.Pos()), true, fmt.Sprintf("origin inside the envelope overlap for all %d overlapping orders", nOrders), bad)
 	}
 }
